@@ -307,6 +307,30 @@ def coq_case(case):
     return '(%s, %s, %s)' % (copt(case.get('window'), cnat), clist(evs), clist(tr))
 
 
+def chatty_child_stops(ctx, pexpect):
+    """real children that never stop talking, in blocks the size of run()'s reads and in small pieces: run(timeout=T) still stops
+    at T, hands back what was written until then (a prefix of the child's output, each piece once), and a TIMEOUT event fires"""
+    import sys
+    import time
+    for block, pause in ((2000, 0.05), (7, 0.01)):
+        prog = ("import os,sys,time\nb=(b'0123456789'*200)[:%d]\nt0=time.time()\nwhile time.time()-t0<8:\n    os.write(1,b); time.sleep(%r)\n" % (block, pause))
+        fired = []
+        t0 = time.time()
+        try:
+            out = pexpect.run(sys.executable + " -c '" + prog.replace("'", '"') + "'", timeout=1, events={pexpect.TIMEOUT: lambda d: fired.append(1) or True})
+        except Exception as e:
+            ctx.hit('C12/chatty', 'run() on a child writing %d-byte blocks raised %r' % (block, e), {'block': block})
+            return
+        took = time.time() - t0
+        unit = (b'0123456789' * 200)[:block]
+        want = (unit * (len(out) // block + 2))[:len(out)]
+        if took > 4 or not fired or out != want:
+            ctx.hit('C12/chatty', 'run(timeout=1) on a child that writes a %d-byte block every %.2f s for 8 s: returned after %.1f s, the TIMEOUT event fired %d times, output %s'
+                    % (block, pause, took, len(fired), 'is a prefix of what the child wrote' if out == want else 'is NOT a prefix of what the child wrote'), {'block': block})
+            return
+    ctx.oracle_stats['chatty_children'] = 2
+
+
 def run(ctx):
     pexpect = common.preflight()
     thorough = ctx.tier == 'thorough'
@@ -403,6 +427,7 @@ def run(ctx):
         ctx.run_cases('run-args', ['Run.Model', 'Run.Run'], 'run_args', 'option (option Z)', arg_cases, shard=400)
     else:
         ctx.corr_broken.append(('run-loop', {'error': 'model did not build'}))
+    chatty_child_stops(ctx, pexpect)
 
 
 def replay(ctx, path):
